@@ -129,6 +129,9 @@ class Interp:
         # named jit calls treated as uninterpreted functions with congruence (A3): name -> None (all outputs opaque) or a list of
         # output positions that are nevertheless evaluated for real (demand-driven slice of the callee)
         self.opaque_calls = {}
+        self.cmp_oracle = None  # see _cmp
+        self.scan_hook = None  # see p_scan
+        self.call_hooks = {}  # see apply
         self.call_log = []
 
     # ---- literals -----------------------------------------------------------------------
@@ -287,6 +290,10 @@ class Interp:
                 outs = self.eval(cj, [], ins, need)
             if name in self.probe_names:
                 self.probes.setdefault(name, []).append((ins, outs))
+            if name in self.call_hooks:  # a harness may observe / replace the result of a named call (inductive cut points)
+                r = self.call_hooks[name](e, ins, outs)
+                if r is not None:
+                    outs = r
             return outs
         if n in STRUCT:
             return self.struct(e, ins)
@@ -647,6 +654,12 @@ class Interp:
     def _cmp(self, op):
         def f(x, y):
             if isinstance(x, Q) or isinstance(y, Q):
+                if self.cmp_oracle is not None:
+                    # forced branch decisions (a harness enumerates the outcomes of selected comparisons itself and keeps the
+                    # decisions as path conditions); None = not handled by the oracle
+                    d = self.cmp_oracle(op, Q.lift(x), Q.lift(y))
+                    if d is not None:
+                        return bool(d)
                 return qdom.compare(op, x, y)
             if isinstance(x, SB) or isinstance(y, SB):
                 if op == "eq":
@@ -986,8 +999,16 @@ class Interp:
         rng = range(L - 1, -1, -1) if p["reverse"] else range(L)
         cc = [self.lit(c) for c in cj.consts]
         for t in rng:
+            if self.scan_hook is not None:  # inductive cut points: a harness may replace the carry by an arbitrary valid state
+                r = self.scan_hook(e, "before", t, carry, (nc, ncar))
+                if r is not None:
+                    carry = list(r)
             out = self.eval(cj.jaxpr, cc, list(consts) + carry + [_as_arr(x[t]) for x in xs])
             carry = out[:ncar]
+            if self.scan_hook is not None:
+                r = self.scan_hook(e, "after", t, carry, (nc, ncar))
+                if r is not None:
+                    carry = list(r)
             y = out[ncar:]
             if ys is None:
                 ys = [[None] * L for _ in y]
